@@ -13,6 +13,7 @@ pub use crate::services::helpers::{
 };
 
 pub use crate::utils::query::{AbstractQuery, Query};
+pub use crate::utils::validation::Validatable;
 
 pub fn normalize_encoded_attr(attr: &str) -> String {
     crate::services::verifier::verif_normalize_encoded_attr(attr)
